@@ -1,3 +1,4 @@
 pub mod engine;
 pub mod model;
 pub mod props;
+pub mod util;
